@@ -14,7 +14,7 @@ Proofs live in `Req/Lemmas/C05*.lean`; this file is the list of statements.
 
 * QUIC varints: `varint_roundtrip`, `varint_len`, `varint_len_append`, `parse_nonminimal_ok`,
   `parse_sound`
-* HTTP/2 frame header: `frameHeader_roundtrip`, `frameHeader_reencode`
+* HTTP/2 frame header: `frameHeader_roundtrip`, `frameHeader_reserved_bit`
 * per frame type, wire level `ReadFrame (Write… args) = frame args`:
   `data_parse_write`, `headers_parse_write`, `priority_parse_write`, `rstStream_parse_write`,
   `settings_parse_write`, `settingsAck_parse_write`, `pushPromise_parse_write`, `ping_parse_write`,
